@@ -25,8 +25,26 @@ from .c11 import typestate
 ACTIVE_SOURCES = ("self.features", "self._filter_feature_keys(", "list(self.features.keys())")
 
 
+ACTIVE_COLLS: set[str] = {"features"}
+ACTIVE_PREDS: set[str] = set()
+
+
+def _is_active_test(leaf: ast.AST, ktxt: str, f: FuncInfo) -> bool:
+    """`key in <active>`  or  `self.<active predicate>(key)`"""
+    if isinstance(leaf, ast.Compare) and len(leaf.ops) == 1 and isinstance(leaf.ops[0], ast.In) and norm(leaf.left) == ktxt and active_derived(f, leaf.comparators[0]):
+        return True
+    return (isinstance(leaf, ast.Call) and isinstance(leaf.func, ast.Attribute) and norm(leaf.func.value) == "self" and leaf.func.attr in ACTIVE_PREDS
+            and len(leaf.args) == 1 and norm(leaf.args[0]) == ktxt)
+
+
 def active_derived(f: FuncInfo, e: ast.expr, depth: int = 0) -> bool:
     txt = norm(e)
+    if any(txt == f"self.{c_}" or txt.startswith(f"self.{c_}.") or txt.startswith(f"list(self.{c_}") for c_ in ACTIVE_COLLS):
+        return True
+    # [k for k in <anything> if self.<active predicate>(k)]
+    if isinstance(e, (ast.ListComp, ast.SetComp, ast.GeneratorExp)) and len(e.generators) == 1 and isinstance(e.generators[0].target, ast.Name) and norm(e.elt) == e.generators[0].target.id \
+            and any(_is_active_test(c_, e.generators[0].target.id, f) for c_ in e.generators[0].ifs) and depth < 4:
+        return True
     if any(txt.startswith(s) or txt == s.rstrip("(") for s in ACTIVE_SOURCES) or "self.features" in txt and ".all_features" not in txt:
         return True
     # a sub-list of active keys is still a list of active keys: [k for k in <active> if ...], list(..), sorted(..)
@@ -86,13 +104,13 @@ def key_gated_here(f: FuncInfo, call: ast.Call, key: ast.expr) -> str | None:
     for fld, node in enc:
         if isinstance(node, ast.If) and fld == "body":
             for leaf in ast.walk(node.test):
-                if isinstance(leaf, ast.Compare) and len(leaf.ops) == 1 and isinstance(leaf.ops[0], ast.In) and norm(leaf.left) == ktxt and active_derived(f, leaf.comparators[0]):
+                if _is_active_test(leaf, ktxt, f):
                     return f"enclosing test `{norm(leaf)[:50]}`"
                 if isinstance(leaf, ast.Name):
                     defs = [s for s in ast.walk(f.node) if isinstance(s, ast.Assign) and any(isinstance(t, ast.Name) and t.id == leaf.id for t in s.targets)]
                     for d in defs:
                         for x in ast.walk(d.value):
-                            if isinstance(x, ast.Compare) and len(x.ops) == 1 and isinstance(x.ops[0], ast.In) and norm(x.left) == ktxt and active_derived(f, x.comparators[0]):
+                            if _is_active_test(x, ktxt, f):
                                 return f"flag `{leaf.id}` assigned from `{norm(x)[:50]}`"
     # (3) a dominating early return  `if key not in <active>: return`
     for s in f.node.body:
@@ -101,6 +119,9 @@ def key_gated_here(f: FuncInfo, call: ast.Call, key: ast.expr) -> str | None:
         if isinstance(s, ast.If) and len(s.body) == 1 and isinstance(s.body[0], ast.Return) and isinstance(s.test, ast.Compare) and len(s.test.ops) == 1:
             if isinstance(s.test.ops[0], ast.NotIn) and norm(s.test.left) == ktxt and active_derived(f, s.test.comparators[0]):
                 return f"early return `{norm(s.test)[:50]}`"
+        if isinstance(s, ast.If) and len(s.body) == 1 and isinstance(s.body[0], ast.Return) and isinstance(s.test, ast.UnaryOp) and isinstance(s.test.op, ast.Not) \
+                and _is_active_test(s.test.operand, ktxt, f):
+            return f"early return `{norm(s.test)[:50]}`"
     # (4) the key is a parameter: the callers must gate it
     if isinstance(key, ast.Name) and key.id in f.params:
         return f"param:{key.id}"
@@ -161,6 +182,12 @@ def run(P: Program, R: Report, tier: str) -> None:
         "a disabled feature is never written by update() or compute(); enabling with recompute recomputes every requested key",
     ]
     R.not_decided += ["that recomputed values equal reference values"]
+    from .annot import active_accessors
+
+    colls_, preds_ = active_accessors(P)
+    ACTIVE_COLLS.clear(); ACTIVE_COLLS.update(colls_)
+    ACTIVE_PREDS.clear(); ACTIVE_PREDS.update(preds_)
+    R.count("active accessors discovered", len(colls_) + len(preds_))
     A = ActionAnalysis(P)
     # ---- R10.1
     una = [c for c in A.primitives if any(".all_features" in norm(n) or ".annotators.features" in norm(n) for n in ast.walk(A.init_of(c).node) if isinstance(n, ast.Attribute))]
@@ -279,7 +306,9 @@ def run(P: Program, R: Report, tier: str) -> None:
 
         rs = Resolver(P, base)
         tests = [rs.text(n.comparators[0]) for n in ast.walk(base.node) if isinstance(n, ast.Compare) and len(n.ops) == 1 and isinstance(n.ops[0], ast.In)]
-        R.check(bool(tests) and all(t in ("self.features", "self.features.keys()") for t in tests), "R10.5", base, base.node,
+        tests += [f"self.{n.func.attr}(..)" for n in ast.walk(base.node) if isinstance(n, ast.Call) and isinstance(n.func, ast.Attribute) and norm(n.func.value) == "self" and n.func.attr in ACTIVE_PREDS]
+        good_ = {f"self.{c_}" for c_ in ACTIVE_COLLS} | {f"self.{c_}.keys()" for c_ in ACTIVE_COLLS} | {f"self.{p_}(..)" for p_ in ACTIVE_PREDS}
+        R.check(bool(tests) and all(t in good_ for t in tests), "R10.5", base, base.node,
                 "_filter_feature_keys keeps only keys in self.features", str(tests), via="provenance")
     # ---- R10.6
     comps = [c for c in ast.walk(en.node) if isinstance(c, ast.Call) and call_name(c) == "compute"]
